@@ -39,6 +39,11 @@ def gen(rng, tier, ds):
         for _ in range(d):
             t = ("A", [t])
         add([wc.enc_q(0, t, [])])
+    # many invalid members in one batch (the handler must fail the call, whatever it does per member)
+    for k in (2, 8, 32):
+        for _ in range(10 if tier == "quick" else 60):
+            add([wc.enc_q(0, rng.choice([None, ("U",), ("N0",), ("E", b"nosuch", b"1", 0), ("A", [("U",)])]), []) for _ in range(k)])
+            add([wc.enc_q(0, probe, [b"a"])])
     for _ in range(25 if tier == "quick" else 250):
         t = wc.rand_valid(rng, rng.choice([1, 2, 3, 4]), ds)
         for pos in list(wc.positions(t))[:40]:
@@ -71,6 +76,30 @@ def compare(rep, reqs, impl, model, where, lines, stats):
     return len(bad)
 
 
+def fuzz(rep, scratch, ds, idx, seed, n):
+    import subprocess
+    p = subprocess.run([scratch.harness(), "wirefuzz", str(n), str(seed), idx], cwd=scratch.dir, env=core.GOENV, capture_output=True, timeout=900)
+    out = p.stdout.decode("utf-8", "replace").splitlines()
+    if p.returncode != 0:
+        rep.violation("monitor:crash", "the in-process handler died on a decodable random message (harness rc=%d): %s" % (p.returncode, p.stderr.decode("utf-8", "replace")[:400]),
+                      {"stderr": p.stderr.decode("utf-8", "replace")[:3000], "last_request": [l for l in out if l.startswith(("REQ", "WQ"))][-6:]})
+        return len(out), 1
+    case = ds.lines() + [l for l in out if l.startswith(("REQ ", "WQ "))]
+    path = scratch.path("c14-fuzz.txt")
+    with open(path, "w") as fh:
+        fh.write("\n".join(case) + "\n")
+    model = {l.split(" ", 2)[1]: l.split(" ", 2)[2] for l in core.run_model("wire", path) if l.startswith("REQ ")}
+    resp = {l.split(" ", 2)[1]: l.split(" ", 2)[2] for l in out if l.startswith("RESP ")}
+    bad = [(rid, a, model.get(rid)) for rid, a in resp.items() if model.get(rid) != a]
+    for rid, a, b in bad[:2]:
+        i = next(k for k, l in enumerate(out) if l.startswith("REQ %s " % rid))
+        nq = int(out[i].split()[2])
+        rep.violation("monitor:crash" if a.startswith("PANIC") else "correspondence",
+                      "decoded random message %s -> implementation %s, model %s" % (" ; ".join(out[i + 1:i + 1 + nq])[:300], a[:150], str(b)[:150]),
+                      {"request": out[i + 1:i + 1 + nq], "impl": a, "model": b, "dataset_lines": ds.lines()[:45]})
+    return len(resp), len(bad)
+
+
 def run(rep, scratch, tier, seed, replay=None):
     rng = random.Random(seed)
     ds = wc.dataset()
@@ -99,8 +128,12 @@ def run(rep, scratch, tier, seed, replay=None):
             nbad += 1
         else:
             nbad += compare(rep, reqs, impl2, model2, "updog server (cache %s)" % ("on" if cache else "off"), lines, {})
+    # random byte-mutated messages that the real proto.Unmarshal accepts, answered in-process
+    nfuzz, fuzz_bad = fuzz(rep, scratch, ds, idx, seed, 1500 if tier == "quick" else 20000)
+    nbad += fuzz_bad
+    rep.coverage["fuzzed_decodable_messages"] = nfuzz
     rep.coverage.update({
-        "evaluations": len(reqs) * 2, "distinct_nontrivial": len(set(" ".join(qs) for _, qs in reqs)),
+        "evaluations": len(reqs) * 2 + nfuzz, "distinct_nontrivial": len(set(" ".join(qs) for _, qs in reqs)),
         "rule": "fixed omission cases (no expression, unset oneof, Not without operand, empty / unset-member And/Or, unknown column, unresolved placeholder, unknown group-by column, empty batch, nesting 50/400(/3000)), and for random valid trees every position replaced by each of 4 holes, a bad member in the middle of a batch, each followed by a well-formed probe; run in-process under recover and against the real server process (must be alive at the end). Non-trivial = distinct requests.",
         "model_outcomes": stats, "failures": nbad, "samples": [reqs[14][1][0][:300]],
     })
